@@ -16,7 +16,7 @@ Require Import PyBase Container Alias.
 Require Import ExtrOcamlBasic ExtrOcamlString.
 Extraction Language OCaml.
 Extraction "%(out)s" np_step np_init_model init_vc values_shape size_of nbytes_own
-  alias_construct alias_step export alias_init_model string_of_Z.
+  alias_construct alias_step export alias_init_model alias_getitem alias_getattr_var string_of_Z.
 '''
 
 DRIVER_ML = r'''
@@ -171,7 +171,7 @@ let handle line =
       (match out with
        | Raise _ -> "{\"init\":" ^ jout out ^ ",\"steps\":[]}"
        | Ret _ -> "{\"init\":\"ok\",\"st0\":" ^ jstate s0 ^ ",\"steps\":[" ^ String.concat "," (run_ops np_step s0 (List.map op_of (list_of ops))) ^ "]}")
-  | L [A "alias"; A k; extra; al; pref; sp; st; d; dflt; nms; ivs; ops] ->
+  | L [A "alias"; A k; extra; al; pref; sp; st; d; dflt; nms; ivs; ops; reads] ->
       (* AliasMixin over a model / linker: constructor, ops through aliases, renamed export *)
       let dr = match dreq_of d with Some x -> x | None -> failwith "dreq" in
       (match alias_construct (aliases_of al) (names_of pref) with
@@ -188,7 +188,13 @@ let handle line =
                 let sfin = List.fold_left (fun s o -> fst (alias_step am o s)) s0 opl in
                 let ren = match export am sfin with
                   | Ret l -> jlist (fun (t, src) -> "[" ^ jname t ^ "," ^ jname src ^ "]") l | Raise e -> jstr (exn_name e) in
-                "{\"init\":\"ok\"," ^ amj ^ ",\"st0\":" ^ jstate s0 ^ ",\"steps\":[" ^ String.concat "," steps ^ "],\"export\":" ^ ren ^ "}"))
+                let jres = function Ret cells -> "{\"ok\":" ^ jlist jcell cells ^ "}" | Raise e -> jstr (exn_name e) in
+                let rds = List.map (function
+                    | L [A "g"; key] -> jres (alias_getitem am (key_of key) sfin)
+                    | L [A "a"; nm] -> jres (alias_getattr_var am (name_of nm) sfin)
+                    | _ -> failwith "read") (list_of reads) in
+                "{\"init\":\"ok\"," ^ amj ^ ",\"st0\":" ^ jstate s0 ^ ",\"steps\":[" ^ String.concat "," steps ^ "],\"export\":" ^ ren
+                ^ ",\"reads\":[" ^ String.concat "," rds ^ "]}"))
   | _ -> failwith "case"
 
 let () =
@@ -369,10 +375,11 @@ def enc_case(case, hints):
                                          ' '.join(xname(x) for x in case['names']),
                                          ' '.join('(%s %s)' % (xname(k), enc_operand(v)) for k, v in case['ivs']), ops)
     if 'aliases' in case:
-        return '(alias %s %d (%s) (%s) %s)' % (
+        reads = ' '.join('(a %s)' % xname(r[1]) if r[0] == 'a' else '(g %s)' % enc_key(r[1]) for r in case.get('reads', []))
+        return '(alias %s %d (%s) (%s) %s (%s))' % (
             case['kind'], case.get('extra', 0),
             ' '.join('(%s %s)' % (xname(k), xname(v)) for k, v in case['aliases']),
-            ' '.join(xname(x) for x in case['preferred']), tail)
+            ' '.join(xname(x) for x in case['preferred']), tail, reads)
     return '(%s %d %s)' % (case['kind'], case.get('extra', 0), tail)
 
 
@@ -646,6 +653,8 @@ def values_set_readback(obj, declared, operand):
                     if not _same_cells(operand[i].astype(ser.dtype), ser):
                         return False
                 return True
+            if isinstance(operand, (list, tuple, range)):
+                return None                 # a sequence is broadcast along the periods: no independent reading here
             for nm in declared:
                 ser = d['_' + nm]
                 if ser.shape[0] and not _same_cells(ser, np.full(ser.shape, ser[0], dtype=ser.dtype)):
